@@ -1,6 +1,7 @@
 package tla
 
 import (
+	"strconv"
 	"bufio"
 	"fmt"
 	"os"
@@ -81,8 +82,19 @@ func LoadSimDir(dir string) ([][]SimStep, error) {
 		return nil, err
 	}
 	sort.Strings(files)
+	// a sharded driver (VERIF_SHARD / VERIF_SHARDS) only parses its own behaviours; the others stay nil so that indices
+	// are the same in every shard
+	shard, shards := 0, 1
+	if v, err := strconv.Atoi(os.Getenv("VERIF_SHARDS")); err == nil && v > 1 {
+		shards = v
+		shard, _ = strconv.Atoi(os.Getenv("VERIF_SHARD"))
+	}
 	var all [][]SimStep
-	for _, f := range files {
+	for i, f := range files {
+		if i%shards != shard {
+			all = append(all, nil)
+			continue
+		}
 		s, err := LoadSimFile(f)
 		if err != nil {
 			return nil, fmt.Errorf("%s: %w", f, err)
